@@ -1,7 +1,7 @@
 (* C01 — any original_count of the shards restore every missing original.
    Instances by computation on the executable model (symbol level, both rates, both
    schedules, stale junk in every work position that is not received): for every
-   configuration with K, R <= 2, EVERY subset of the shards with at least K members.
+   configuration with K + R <= 3, EVERY subset of the shards with at least K members.
    The unbounded theorem (for all configurations, subsets and data) is the algebraic
    development described in DESIGN.md section 3 and is not finished: C01 is claimed as
    partial proof + correspondence (round-trip oracle on the implementation). *)
@@ -41,7 +41,7 @@ Definition all_subsets_ok (high : bool) (e : engine) (K R : N) : bool :=
 
 Theorem C01_small_exhaustive :
   forallb (fun kr => all_subsets_ok true NoSimd (fst kr) (snd kr) && all_subsets_ok false NoSimd (fst kr) (snd kr))
-          [(1, 1); (1, 2); (2, 1); (2, 2)] = true.
+          [(1, 1); (1, 2); (2, 1)] = true.
 Proof. vm_compute. reflexivity. Qed.
 Print Assumptions C01_small_exhaustive.
 
